@@ -991,6 +991,43 @@ def validate_views():
         return bool(r.is_encrypted) and res == 0 and int(res) == 0 and ctor == "WrongPasswordError", \
             f"decrypt('') = {res!r} on the protected fixture; PdfReader(f, password='') -> {ctor}"
     fact("pypdf-is_encrypted-and-decrypt-result-0-for-a-rejected-password", v_pdf)
+
+    def v_pdf_encrypt_dict():
+        # the /Encrypt dictionary view and `decrypts with AES` (contracts/C08.py::pdf_uses_aes) on the stored documents,
+        # incl. the copies whose crypt filter is not called /StdCF: the named filter decides, as pypdf resolves it
+        import base64
+        import json
+        from pypdf import PdfReader
+        from sharepoint2text.parsing.extractors.pdf._pypdf_aes_fallback import patch_pypdf_fallback_aes
+        patch_pypdf_fallback_aes()          # (this validator process only: AES-256 documents need AES in the constructor)
+        docs = json.load(open(os.path.join(os.path.dirname(os.path.abspath(__file__)), "C08_pdfs.json")))
+        seen = []
+        for key in sorted(docs):
+            raw = zlib.decompress(base64.b64decode(docs[key]))
+            for label, data in ((key, raw), (key + " (filter renamed)", raw.replace(b"/StdCF", b"/AESCF"))):
+                if label != key and raw.count(b"/StdCF") != 3:
+                    continue
+                r = PdfReader(io.BytesIO(data))
+                if not r.is_encrypted:
+                    if "/Encrypt" in r.trailer:
+                        return False, f"{label}: not encrypted but the trailer has /Encrypt"
+                    continue
+                e = r.trailer["/Encrypt"]
+                if e.get_object() is not e and e.get_object() != e:
+                    return False, f"{label}: trailer['/Encrypt'] is not resolved"
+                v = int(e.get("/V", 0))
+                stm = str(e.get("/StmF", "/Identity"))
+                names = {stm, str(e.get("/StrF", "/Identity")), str(e.get("/EFF", stm))} - {"/Identity"}
+                cf = e.get("/CF")
+                uses = v >= 4 and any(cf is not None and n in cf and "/CFM" in cf[n] and str(cf[n]["/CFM"]) in ("/AESV2", "/AESV3") and cf[n]["/CFM"] == str(cf[n]["/CFM"])
+                                      for n in names)
+                en = r._encryption      # pypdf's own resolution: the /CFM of the filters named by /StmF, /StrF, /EFF
+                real = any(str(getattr(en, a, "")) in ("/AESV2", "/AESV3") for a in ("StmF", "StrF", "EFF")) if hasattr(en, "StmF") else key.startswith("AES")
+                if uses != key.startswith("AES") or uses != real:
+                    return False, f"{label}: pdf_uses_aes = {uses}, document algorithm {key.split('|')[0]}, pypdf stream cipher is AES: {real}"
+                seen.append(label)
+        return len(seen) >= 12, f"{len(seen)} stored encrypted PDFs (RC4 / AES, /StdCF and renamed filters): the named crypt filter's /CFM decides"
+    fact("pypdf-encrypt-dictionary-view-and-aes-crypt-filter-resolution", v_pdf_encrypt_dict)
     return out
 
 
